@@ -126,6 +126,7 @@ class Sched:
         self.exit_order = []
         self.thread_excs = []
         self.hang = None
+        self.step_cost = self.mode.get('step_cost', 0.0)
         main = Task('main')
         self.main = main
         self.tasks.append(main)
@@ -202,6 +203,9 @@ class Sched:
             if isinstance(nxt, Actor):
                 self.progress += 1
                 nxt.step()
+                # (children are not infinitely fast: their work takes virtual time, so the
+                # parent's poll loop wakes up in the middle of it)
+                self.clock.now += self.step_cost
                 continue
             if nxt is not self.main:
                 self.progress += 1
@@ -230,6 +234,17 @@ class Sched:
         self.main.state = 'runnable'
         self.main.sem.release()
         me.sem.acquire()
+
+    def others_can_run(self):
+        """Is any task other than main, or any child actor, able to take a step right now?"""
+        now = self.clock.now
+        for t in self.tasks:
+            if t is self.main or t.state in ('done', 'new'):
+                continue
+            if t.state == 'runnable' or (t.state == 'blocked' and t.cond()) or \
+                    (t.state == 'sleeping' and t.wake_at <= now):
+                return True
+        return any(a.can_step(now) for a in self.actors)
 
     def switch_point(self):
         """A scheduling point at which the caller stays runnable."""
@@ -949,8 +964,13 @@ class SimThread:
         if s.active and self._env.yield_is_alive and s.current is s.main:
             # real threads are pre-empted anywhere: between two statements of the parent's loop
             # a worker may publish its results and end - asking for liveness is a point where
-            # the simulator lets that happen
-            s.switch_point()
+            # the simulator lets that happen - one step of somebody else, or (one time in
+            # three) a long pre-emption: everybody else runs until nobody can any more
+            if s.rng.random() < 0.33:
+                s.probe('main_preempted_long')
+                s.block(lambda: not s.others_can_run(), 'pre-empted')
+            else:
+                s.switch_point()
         return self.task.state not in ('done', 'new')
 
     isAlive = is_alive
@@ -1074,6 +1094,10 @@ class Env:
         self.barrier_open = False
         # one run in five starts its children with freshly imported runner modules (an
         # exec()ed child shares no module state with its parent); knob overrides
+        sc = knobs.get('actor_step_cost')
+        if sc is None:
+            sc = {1: 0.003, 2: 0.0007}.get((spec.get('seed') or 0) % 4, 0.0)
+        self.sched.step_cost = sc
         ya = knobs.get('yield_is_alive')
         self.yield_is_alive = bool(ya) if ya is not None else (spec.get('seed') or 0) % 3 != 0
         fc = knobs.get('fresh_child')
@@ -1245,11 +1269,15 @@ class Env:
                 elif e.get('in_report'):
                     # a whole line from somebody else (a leftover thread, a C library) lands
                     # between two lines of the report
-                    recs = [i for i, r_ in enumerate(newtape) if r_[0] == 'E' and
-                            closed_at is not None and i > closed_at]
-                    # (behind the header line: in front of it the line is just more noise)
-                    if len(recs) >= 3:
-                        pos = recs[2 + (e.get('pos', 0) % (len(recs) - 2))]
+                    # (behind the header line - in front of it the line is just more noise -
+                    # and in front of the end marker; print() writes a line in several pieces)
+                    ends = [i for i, r_ in enumerate(newtape) if r_[0] == 'E' and
+                            closed_at is not None and i > closed_at and r_[1].endswith(b'\n')]
+                    cands = ends[1:-1]      # after the header's newline .. before the marker's
+                    if cands:
+                        pos = cands[e.get('pos', 0) % len(cands)] + 1
+                        if not e['text'].endswith('\n'):
+                            e = dict(e, text=e['text'] + '\n')
                 text = e['text'].encode('utf-8')
                 newtape.insert(pos, (e.get('stream', 'E'), text))
                 info['channel'].append(('noise', e.get('stream', 'E'), pos, len(text)))
